@@ -231,6 +231,9 @@ pub struct Objs {
     pub notifies: usize,
     #[serde(default)]
     pub chans: usize,
+    /// per channel: index of an atomic that every message's `Drop` increments (or none)
+    #[serde(default, skip_serializing_if = "Vec::is_empty")]
+    pub chan_rmw: Vec<Option<usize>>,
     /// number of Arc handle slots
     #[serde(default)]
     pub handles: usize,
@@ -320,6 +323,9 @@ impl Program {
         cnt!(condvars, "cv");
         cnt!(notifies, "n");
         cnt!(chans, "ch");
+        if !o.chan_rmw.is_empty() {
+            let _ = write!(s, "chan_rmw={:?} ", o.chan_rmw);
+        }
         cnt!(handles, "h");
         if !o.arcs.is_empty() {
             let _ = write!(s, "arcs={:?} ", o.arcs);
